@@ -239,6 +239,7 @@ def display(I, v, spec=None):
     if isinstance(d, Agg):
         if d.tag == 'Cow': return list(I.str_of(d.f[0]))
         if d.tag == 'char': return [d.f[0]]
+        if d.tag == 'Errno': return list(lit('errno'))
         if isinstance(d.tag, str) and d.tag.startswith('E') and d.tag.isupper(): return list(lit(d.tag + ': os error'))
         f = I.prog.by_key.get('<%s as Display>::fmt' % d.tag)
         if f:
